@@ -57,7 +57,6 @@ def _pi_affine(s):
 
 class SymAngle:
     __slots__ = ("x", "y", "k", "norm", "acos_of")
-    __array_priority__ = 1800
 
     def __init__(self, x, y, k=0, norm=False, acos_of=None):
         self.x, self.y, self.k, self.norm, self.acos_of = x, y, k, norm, acos_of
